@@ -116,17 +116,17 @@ Check reclaim_unsafe_refuted :
     In t (live st) /\ tracked t /\ tv t <= a.
 Print Assumptions reclaim_unsafe_refuted.
 
-(* ---- sequential histories over several managers (current code): (iv) and (i) fail ---- *)
+(* ---- sequential histories over several managers, pinned tree: (iv) and (i) fail ---- *)
 Theorem dangling_manager_refuted :
-  exists ops, dangling (srun_ops ops sinit) = 1.
+  exists ops, dangling (srun_ops false ops sinit) = 1.
 Proof. exists dangling_hist. exact dangling_release. Qed.
-Check dangling_manager_refuted : exists ops, dangling (srun_ops ops sinit) = 1.
+Check dangling_manager_refuted : exists ops, dangling (srun_ops false ops sinit) = 1.
 Print Assumptions dangling_manager_refuted.
 
 Theorem cache_crosses_managers_refuted :
-  exists ops, handed_writers (srun_ops ops sinit) 1 = 2.
+  exists ops, handed_writers (srun_ops false ops sinit) 1 = 2.
 Proof. exists cross_hist. exact cross_cache_two_writers. Qed.
-Check cache_crosses_managers_refuted : exists ops, handed_writers (srun_ops ops sinit) 1 = 2.
+Check cache_crosses_managers_refuted : exists ops, handed_writers (srun_ops false ops sinit) 1 = 2.
 Print Assumptions cache_crosses_managers_refuted.
 
 (* the hypotheses of the positive theorems are inhabited by non-trivial runs *)
